@@ -8,6 +8,7 @@ import (
 	"fmt"
 	"os"
 	"path/filepath"
+	"regexp"
 	"sort"
 	"strings"
 	"sync"
@@ -304,6 +305,8 @@ func ctokens(s string) []ctok {
 	return out
 }
 
+var reSuffix = regexp.MustCompile(`(_\d+)?_?$`)
+
 // alphaEqual compares two backend texts up to a renaming of identifiers.
 // Everything that is not an identifier must be identical.  Identifier
 // occurrences either keep or change their spelling; a spelling that is
@@ -330,8 +333,18 @@ func alphaEqual(x, y string) (bool, string) {
 	}
 	gf, gr := map[string]string{}, map[string]string{}
 	lf, lr := map[string]string{}, map[string]string{}
+	mf, mr := map[string]string{}, map[string]string{} // struct members live in their own name space
+	inStruct := false
 	for k := range tx {
 		a, b := tx[k], ty[k]
+		if a.depth == 0 && a.text == "{" {
+			inStruct = false
+			for j := k - 1; j >= 0 && j >= k-4; j-- {
+				if tx[j].text == "struct" {
+					inStruct = true
+				}
+			}
+		}
 		if a.depth == 0 && a.paren == 0 && !a.ident && (a.text == "}" || a.text == ";") {
 			lf, lr = map[string]string{}, map[string]string{} // next top-level declaration
 		}
@@ -348,8 +361,24 @@ func alphaEqual(x, y string) (bool, string) {
 			continue
 		}
 		f, r := lf, lr
-		if global[a.text] || globalY[b.text] {
+		isMember := k > 0 && tx[k-1].text == "." ||
+			inStruct && a.depth == 1 && k+1 < len(tx) && (tx[k+1].text == ";" || tx[k+1].text == "[" || tx[k+1].text == ":")
+		switch {
+		case isMember:
+			f, r = mf, mr
+		case global[a.text] || globalY[b.text]:
 			f, r = gf, gr
+		}
+		if isMember {
+			// members of different structs are numbered independently ("x_" here, "x_1" there):
+			// only the base of the new spelling has to be the same everywhere
+			base := reSuffix.ReplaceAllString(b.text, "")
+			if prev, ok := mf[a.text]; ok && prev != base {
+				return false, fmt.Sprintf("member %q becomes both %q and %q (token %d, context: %s)", a.text, prev, b.text, k, around(ty, k))
+			}
+			mf[a.text] = base
+			_ = mr
+			continue
 		}
 		if prev, ok := f[a.text]; ok && prev != b.text {
 			return false, fmt.Sprintf("identifier %q becomes both %q and %q (token %d, context: %s)", a.text, prev, b.text, k, around(ty, k))
